@@ -52,6 +52,59 @@ func HarnessC13IntLeaf() {
 	verif.Assert(got == holds(op, x < c, x == c), "C13/int-leaf/numeric-comparison")
 }
 
+// C13 (b'): two bindings of one row against each other: int64 cells over the
+// full range compare numerically.
+func HarnessC13IntPair() {
+	x, y := verif.Int64("x"), verif.Int64("y")
+	if verif.Param("FULL", 0) == 0 {
+		// quick tier: up to four digits each (numbers of different digit counts included)
+		verif.Assume(verif.And(verif.And(x > -10000, x < 10000), verif.And(y > -10000, y < 10000)))
+	}
+	op := c13Ops[verif.Choice("op", 3)]
+	if x < 0 && y < 0 {
+		verif.Class("both-negative")
+	}
+	ev, err := semantic.NewEvaluationExpression(op, "?x", "?y")
+	verif.Assume(err == nil)
+	var got bool
+	var eerr error
+	if !noPanic("C13/int-pair/no-panic", func() { got, eerr = ev.Evaluate(table.Row{"?x": intCell(x), "?y": intCell(y)}) }) {
+		return
+	}
+	verif.Reach("evaluated")
+	verif.Assert(eerr == nil, "C13/int-pair/evaluates")
+	verif.Assert(got == holds(op, x < y, x == y), "C13/int-leaf/numeric-comparison")
+}
+
+// C13 (b''): two bindings of one row: a text literal against an extracted
+// id/type string (a string cell) compares by the bytes of the text.
+func HarnessC13TextPair() {
+	L := verif.Param("L", 2)
+	x := verif.String("x", 1+verif.Choice("lx", L))
+	y := verif.String("y", 1+verif.Choice("ly", L))
+	for _, s := range []string{x, y} {
+		for i := 0; i < len(s); i++ {
+			verif.Assume(verif.And(verif.And(s[i] > '"', s[i] < 0x7f), s[i] != '\\'))
+		}
+	}
+	op := c13Ops[verif.Choice("op", 3)]
+	cells := [][2]*table.Cell{{textCell(x), strCell(y)}, {strCell(x), textCell(y)}, {strCell(x), strCell(y)}}[verif.Choice("cells", 3)]
+	ev, err := semantic.NewEvaluationExpression(op, "?x", "?y")
+	verif.Assume(err == nil)
+	var got bool
+	var eerr error
+	if !noPanic("C13/text-pair/no-panic", func() { got, eerr = ev.Evaluate(table.Row{"?x": cells[0], "?y": cells[1]}) }) {
+		return
+	}
+	verif.Reach("evaluated")
+	verif.Assert(eerr == nil, "C13/text-pair/evaluates")
+	if len(x) != len(y) {
+		// prefixes are ordered through the closing quote (recorded under the text leaf)
+		return
+	}
+	verif.Assert(got == holds(op, x < y, x == y), "C13/text-pair/lexicographic-comparison")
+}
+
 // C13 (b): text/string cells against a text constant: bytewise order.
 func HarnessC13TextLeaf() {
 	L := verif.Param("L", 2)
